@@ -127,6 +127,9 @@ func (x *Exec) heap(st *State, name, srt string) string {
 			st.emit("(assert (> $alloc@e0 0))")
 		}
 		x.typingAxiom(st, name, v)
+		if strings.HasPrefix(name, "GV$") && ep == 0 && x.L.immutableGlobals[strings.TrimPrefix(name, "GV$")] && x.L.nonNilGlobals[strings.TrimPrefix(name, "GV$")] && srt == "Iface" {
+			st.emit(fmt.Sprintf("(assert (not (= %s (mk_iface 0 0))))", v))
+		}
 	}
 	st.heaps[name] = v
 	return v
